@@ -122,6 +122,23 @@ def run(prop, tier, seed, known):
                 for kind, src in sources(text):
                     expect('load_events(comment=%r)' % cre, lambda: IO.load_events(src, comment=cre),
                            lambda r: None if isinstance(r, np.ndarray) and r.tolist() == ev2 else 'got %r wrote %r' % (r, ev2))
+            # files without any data row (empty, or comments only) load as empty annotations
+            for text in ('', '# nothing here\n', '# a\n# b\n'):
+                for kind, src in sources(text):
+                    expect('load_events of a file without data rows (%s)' % kind, lambda: IO.load_events(src),
+                           lambda r: None if isinstance(r, np.ndarray) and r.size == 0 else 'got %r' % (r,))
+                for kind, src in sources(text):
+                    expect('load_labeled_events of a file without data rows (%s)' % kind, lambda: IO.load_labeled_events(src),
+                           lambda r: None if isinstance(r, tuple) and len(r[0]) == 0 and list(r[1]) == [] else 'got %r' % (r,))
+                for kind, src in sources(text):
+                    expect('load_intervals of a file without data rows (%s)' % kind, lambda: IO.load_intervals(src),
+                           lambda r: None if isinstance(r, np.ndarray) and r.size == 0 else 'got %r' % (r,))
+                for kind, src in sources(text):
+                    expect('load_labeled_intervals of a file without data rows (%s)' % kind, lambda: IO.load_labeled_intervals(src),
+                           lambda r: None if isinstance(r, tuple) and len(r[0]) == 0 and list(r[1]) == [] else 'got %r' % (r,))
+                for kind, src in sources(text):
+                    expect('load_time_series of a file without data rows (%s)' % kind, lambda: IO.load_time_series(src),
+                           lambda r: None if isinstance(r, tuple) and len(r[0]) == 0 and len(r[1]) == 0 else 'got %r' % (r,))
             # content that parses but violates conventions -> returned (with a warning), not an exception
             for kind, src in sources('2.0\n1.0\n'):
                 expect('load_events with decreasing times', lambda: IO.load_events(src), lambda r: None if isinstance(r, np.ndarray) and r.tolist() == [2.0, 1.0] else 'got %r' % (r,))
